@@ -1031,7 +1031,7 @@ def _list_elem_len(mod, rd, fn, d, depth=2):
   elif _comp_tuple_len(d.value) is not None:
     lens.add(_comp_tuple_len(d.value))
   elif isinstance(d.value, ast.Call) and depth > 0:
-    callee = U.callee_of(mod, d.value, cls=RUNNER)
+    callee = U.callee_of(mod, d.value, cls=RUNNER, within=fn)
     if callee is None or any(isinstance(n, (ast.Yield, ast.YieldFrom))
                              for n in walk_no_nested(callee)):
       return None
@@ -1271,7 +1271,8 @@ def _r19_3_yields(ctx, m, stages):
       raise AnalysisError(f"{fn.name} yields nothing")
     for y in yields:
       if isinstance(y, ast.YieldFrom):
-        callee = U.callee_of(mod, y.value, cls=RUNNER) if isinstance(y.value, ast.Call) else None
+        callee = U.callee_of(mod, y.value, cls=RUNNER, within=fn) \
+            if isinstance(y.value, ast.Call) else None
         if callee is None or depth <= 0 or callee is fn:
           raise AnalysisError(
               f"{fn.name}: `yield from {src(y.value)[:60]}` does not delegate to a "
